@@ -123,7 +123,7 @@ func (v *demuxer) ReadTagHeader() (tagType TagType, tagSize uint32, timestamp ui
 
 func (v *demuxer) ReadTag(tagSize uint32) (tag []byte, err error) {
 	h := &bytes.Buffer{}
-	if _, err = io.CopyN(h, v.r, int64(tagSize+4)); err != nil {
+	if _, err = io.CopyN(h, v.r, int64(tagSize)+4); err != nil {
 		return
 	}
 
